@@ -6,7 +6,7 @@ from props import dtfam
 
 ID = 'C09'
 PROPS_MODULE = 'Props.C09'
-THEOREMS = ['C09_smag_dx', 'C09_smag_dy', 'C09_smag3_dx', 'C09_finite', 'C09_zero_image', 'C09_avgpool_adjoint', 'C09_scat_j1_vjp', 'C09_cot_plane']
+THEOREMS = ['C09_smag_dx', 'C09_smag_dy', 'C09_smag3_dx', 'C09_finite', 'C09_zero_image', 'C09_avgpool_adjoint', 'C09_scat_j1_vjp', 'C09_cot_plane', 'C09_scat_j1_vjp_colour', 'C09_scat_j2_vjp', 'C09_linmag_entry']
 VO = ['theories/Props/C09.vo', 'theories/Props/C06.vo', 'theories/Run/RunScat.vo']
 RULE = ('correspondence A: the hand-written backward passes of ScatLayerj1_f / ScatLayerj1_rot_f / ScatLayerj2_f / ScatLayerj2_rot_f (through torch.autograd.grad) and SmoothMagFn '
         '(value and both partials) vs the PrimFloat backward model (phase factors re/r, im/r, cotangent slicing, 1/4 upsampling, inverse stages with the a<->b exchange), '
@@ -15,7 +15,7 @@ RULE = ('correspondence A: the hand-written backward passes of ScatLayerj1_f / S
 TRUSTED = TRUSTED_COMMON + ['PrimFloat primitives for the float instance of the model', 'real-number axioms + classical logic via Coquelicot (see Print Assumptions)',
                             'the multivariate chain rule (that reverse-mode composition of the stage derivatives is the gradient of the composite) is taken as standard mathematics, not re-proved']
 ASSUMES = ['theorems: the saved factors are the partial derivatives of the smooth magnitude and are bounded by 1 for every input when the bias is non-zero (0 at the zero image); the pooling stage adjoint; '
-           'the WHOLE backward pass of the first-order layer (greyscale, plain family) is the adjoint of the phase-weighted linearisation of the forward pass for every input, direction and cotangent (C09_scat_j1_vjp, from the level-1 DTCWT adjoint C06_level1_adjoint and the pooling adjoint). PARTIAL: that this linearisation is the derivative (chain rule) is the standard step not re-proved; colour / band-pass / second-order variants are tied to the code by float correspondence and checked against finite differences']
+           'the WHOLE backward pass of the first-order layer (greyscale, plain family) is the adjoint of the phase-weighted linearisation of the forward pass for every input, direction and cotangent (C09_scat_j1_vjp, from the level-1 DTCWT adjoint C06_level1_adjoint and the pooling adjoint). the same for the colour combination (C09_scat_j1_vjp_colour) and for the whole SECOND-ORDER layer, greyscale plain family (C09_scat_j2_vjp: three level adjoints chained with the pooling adjoint and the pointwise identity that moves the phases from the direction to the cotangent). PARTIAL: that this linearisation is the derivative (chain rule) is the standard step not re-proved; the band-pass (_bp) family and the colour second-order layer are tied to the code by float correspondence and checked against finite differences']
 
 
 def corr_jobs(tier, rng):
@@ -34,6 +34,11 @@ def oracle_cases(tier, rng):
                     for layer, hw in ((1, (8, 8)), (1, (6, 10)), (1, (7, 5)), (2, (8, 8)), (2, (16, 8)), (2, (11, 9))):
                         if tier == 'quick' and layer == 2 and hw != (8, 8) and kind in ('spike', 'tiny'): continue
                         yield dict(layer=layer, biort=b, qshift=q, colour=colour, bias=bias, kind=kind, H=hw[0], W=hw[1], seed=int(rng.integers(1 << 30)))
+    # the first-order layer also takes mode='zero' (anything but 'symmetric' is zero padding): forward and backward must use the same one
+    for (b, q) in fams[:2]:
+        for colour in (0, 1):
+            for hw in ((8, 8), (6, 10), (12, 20)):
+                yield dict(layer=1, biort=b, qshift=q, colour=colour, bias=1e-2, kind='gauss', H=hw[0], W=hw[1], mode='zero', seed=int(rng.integers(1 << 30)))
     # a small bias with coefficients of the same small size: the phase re/r, im/r must not be regularised beyond the bias itself
     for (b, q) in fams[:2]:
         for colour in (0, 1):
@@ -48,7 +53,7 @@ def oracle_cases(tier, rng):
 
 
 def strat_key(cfg):
-    return 'L%d/%s/c%d/b%g/%s' % (cfg['layer'], cfg['biort'], cfg['colour'], cfg['bias'], cfg['kind'])
+    return 'L%d/%s/c%d/b%g/%s%s' % (cfg['layer'], cfg['biort'], cfg['colour'], cfg['bias'], cfg['kind'], '/' + cfg['mode'] if cfg.get('mode') else '')
 
 
 def oracle_run(cfg):
@@ -78,7 +83,7 @@ def oracle_run(cfg):
             return None
         C = 3 if cfg['colour'] else 2
         X = cs.gen_input(r, (1, C, cfg['H'], cfg['W']), cfg['kind'])
-        lay = (ScatLayer(biort=cfg['biort'], magbias=b, combine_colour=bool(cfg['colour'])) if cfg['layer'] == 1 else
+        lay = (ScatLayer(biort=cfg['biort'], magbias=b, combine_colour=bool(cfg['colour']), mode=cfg.get('mode', 'symmetric')) if cfg['layer'] == 1 else
                ScatLayerj2(biort=cfg['biort'], qshift=cfg['qshift'], magbias=b, combine_colour=bool(cfg['colour']))).double()
         x = torch.tensor(X, requires_grad=True)
         Z = lay(x)
